@@ -2,6 +2,7 @@
 """Regenerates the seeded-changes table of DESIGN.md section 11.6 from seeded/*/meta.json."""
 import json, glob, os, re
 NOTES = {
+ 'C16-r13-codetable-refresh-on-miss': 'Strengthened: first missed; the concurrent jobs now contain an invalid value code for every optional metric of both families (the miss path of every code lookup) next to a valid vector that carries every Modified metric.',
  'C15-r12-v2-temporal-multiply-in-map-order': 'Strengthened: first missed (the flipping value is an exact rounding tie, which C04 rightly admits either way); C15 now repeats every query on one object and on a second one over the whole v2 base/temporal domain and seeded environmental vectors of both families.',
  'C16-r12-intern-table-written-on-unknown-name': 'Strengthened: first missed; the stress mix decodes vectors with metric names never seen before in the process.',
  'C11-r12-poc-alias-reported-misordered': 'Strengthened: first caught by C20 only; valid vectors with one value code respelled in another upper/lower-case mix were added to the language inputs, and C20 probes every case spelling of every code.',
